@@ -278,8 +278,11 @@ class NTuple(Collection):
         )
 
     def __getitem__(self, index: int) -> NadaType:
-        if index >= len(self.values):
+        if not -len(self.values) <= index < len(self.values):
             raise IndexError(f"Invalid index {index} for NTuple.")
+        if index < 0:
+            # Negative indices count from the end; the MIR records the position.
+            index += len(self.values)
 
         accessor = NTupleAccessor(
             index=index,
